@@ -48,6 +48,9 @@ pub struct IncCfg {
     pub corrupt_before: Corrupt,
     pub gap_ns: i64,
     pub write_gap_ns: i64,
+    /// the corruption is applied while the first client is in the middle of a call (only
+    /// termination of client calls is judged in such a run)
+    pub under_reader: bool,
 }
 
 #[derive(Clone, Debug)]
@@ -68,6 +71,9 @@ pub struct ReaderCfg {
     pub probe_apis: bool,
     /// open a fresh reader for every call and drop it afterwards (corruption profile)
     pub reopen_each_call: bool,
+    /// long sleeper: publications the writer makes back-to-back before its first pause (the
+    /// reader's first call races with them when > 1)
+    pub burst: u32,
 }
 
 #[derive(Clone, Debug)]
@@ -85,6 +91,13 @@ pub struct ACfg {
     pub hash_seed: u64,
     /// non-empty: ping-pong scheduler with these quanta (thread 0 = writer host, 1.. = readers)
     pub pingpong: Vec<u32>,
+    /// percentage of writes that republish the previous record's content (a real daemon publishes
+    /// identical records while nothing changes, e.g. during an outage)
+    pub repeat_pct: u32,
+    /// non-empty: scripted scheduling prefix (thread index, number of scheduling points)
+    pub script: Vec<(usize, u32)>,
+    /// directed preemptions (thread, store?, location, nth access, thread to run, for how many points)
+    pub preempts: Vec<(usize, bool, u8, u32, usize, u32)>,
 }
 
 // ------------------------------------------------------------------------------------------
@@ -135,12 +148,13 @@ impl ACfg {
     pub fn to_json(&self) -> Value {
         json!({
             "weak": self.weak, "stale_ppm": self.stale_ppm, "switch_ppm": self.switch_ppm, "pct_depth": self.pct_depth,
-            "field_perm": self.field_perm, "init": corrupt_json(&self.init), "max_steps": self.max_steps, "hash_seed": self.hash_seed, "pingpong": self.pingpong,
+            "field_perm": self.field_perm, "init": corrupt_json(&self.init), "max_steps": self.max_steps, "hash_seed": self.hash_seed, "pingpong": self.pingpong, "repeat_pct": self.repeat_pct, "script": self.script.iter().map(|(t, n)| vec![*t as u64, *n as u64]).collect::<Vec<_>>(),
+            "preempts": self.preempts.iter().map(|p| vec![p.0 as u64, p.1 as u64, p.2 as u64, p.3 as u64, p.4 as u64, p.5 as u64]).collect::<Vec<_>>(),
             "incs": self.incs.iter().map(|i| json!({
                 "writes": i.writes, "kill_at": i.kill_at, "io_err": i.io_err.map(|(a,b)| vec![a,b]),
-                "corrupt_before": corrupt_json(&i.corrupt_before), "gap_ns": i.gap_ns, "write_gap_ns": i.write_gap_ns})).collect::<Vec<_>>(),
+                "corrupt_before": corrupt_json(&i.corrupt_before), "gap_ns": i.gap_ns, "write_gap_ns": i.write_gap_ns, "under_reader": i.under_reader})).collect::<Vec<_>>(),
             "readers": self.readers.iter().map(|r| json!({
-                "start_ns": r.start_ns, "retry_ns": r.retry_ns, "max_open_tries": r.max_open_tries, "sleep_pubs": r.sleep_pubs, "probe_apis": r.probe_apis, "reopen_each_call": r.reopen_each_call,
+                "start_ns": r.start_ns, "retry_ns": r.retry_ns, "max_open_tries": r.max_open_tries, "sleep_pubs": r.sleep_pubs, "probe_apis": r.probe_apis, "reopen_each_call": r.reopen_each_call, "burst": r.burst,
                 "calls": r.calls.iter().map(|c| json!([c.gap_ns, c.sync_before])).collect::<Vec<_>>()})).collect::<Vec<_>>(),
         })
     }
@@ -158,6 +172,9 @@ impl ACfg {
             init: corrupt_from(&v["init"]),
             max_steps: u(&v["max_steps"]),
             hash_seed: u(&v["hash_seed"]),
+            repeat_pct: u(&v["repeat_pct"]) as u32,
+            preempts: v["preempts"].as_array().map(|a| a.iter().map(|p| (u(&p[0]) as usize, u(&p[1]) != 0, u(&p[2]) as u8, u(&p[3]) as u32, u(&p[4]) as usize, u(&p[5]) as u32)).collect()).unwrap_or_default(),
+            script: v["script"].as_array().map(|a| a.iter().map(|p| (u(&p[0]) as usize, u(&p[1]) as u32)).collect()).unwrap_or_default(),
             pingpong: v["pingpong"].as_array().map(|a| a.iter().map(|x| u(x) as u32).collect()).unwrap_or_default(),
             incs: v["incs"]
                 .as_array()
@@ -170,6 +187,7 @@ impl ACfg {
                             corrupt_before: corrupt_from(&x["corrupt_before"]),
                             gap_ns: i(&x["gap_ns"]),
                             write_gap_ns: i(&x["write_gap_ns"]),
+                            under_reader: x["under_reader"].as_bool().unwrap_or(false),
                         })
                         .collect()
                 })
@@ -185,6 +203,7 @@ impl ACfg {
                             sleep_pubs: u(&x["sleep_pubs"]) as u32,
                             probe_apis: b(&x["probe_apis"]),
                             reopen_each_call: b(&x["reopen_each_call"]),
+                            burst: u(&x["burst"]).max(1) as u32,
                             calls: x["calls"].as_array().map(|c| c.iter().map(|p| CallCfg { gap_ns: i(&p[0]), sync_before: b(&p[1]) }).collect()).unwrap_or_default(),
                         })
                         .collect()
@@ -198,7 +217,7 @@ impl ACfg {
 // configuration generators (swarm)
 // ------------------------------------------------------------------------------------------
 
-const GEN_BIAS: [u16; 10] = [1, 2, 3, 4, 32766, 65532, 65533, 65534, 65535, 2];
+const GEN_BIAS: [u16; 22] = [1, 2, 3, 4, 32766, 65532, 65533, 65534, 65535, 2, 254, 255, 256, 257, 32767, 32768, 32769, 65278, 65279, 65280, 510, 512];
 
 fn gen_biased(r: &mut Rng) -> u16 {
     if r.chance(70) {
@@ -282,6 +301,7 @@ fn gen_reader(r: &mut Rng, max_calls: u32, probe: bool) -> ReaderCfg {
         sleep_pubs: 0,
         probe_apis: probe,
         reopen_each_call: probe,
+        burst: 1,
     }
 }
 
@@ -301,6 +321,9 @@ pub fn gen_config(profile: Profile, run_seed: u64, index: u64) -> ACfg {
         max_steps: 200_000,
         hash_seed: r.next(),
         pingpong: Vec::new(),
+        repeat_pct: *r.pick(&[0u32, 0, 15, 40]),
+        script: Vec::new(),
+        preempts: Vec::new(),
     };
     if r.chance(20) {
         cfg.switch_ppm = 0;
@@ -323,7 +346,7 @@ pub fn gen_config(profile: Profile, run_seed: u64, index: u64) -> ACfg {
             let busy = profile == Profile::Busy;
             for i in 0..ninc {
                 let writes = if busy { r.range(6, 14) } else { r.range(0, 6) } as u32;
-                let mut inc = IncCfg { writes, kill_at: None, io_err: None, corrupt_before: Corrupt::None, gap_ns: r.range(0, 300), write_gap_ns: if r.chance(60) { 0 } else { r.range(10, 200) } };
+                let mut inc = IncCfg { writes, kill_at: None, io_err: None, corrupt_before: Corrupt::None, gap_ns: r.range(0, 300), write_gap_ns: if r.chance(60) { 0 } else { r.range(10, 200) }, under_reader: false };
                 if kills && (i + 1 < ninc || r.chance(50)) && r.chance(80) {
                     // bias: land inside new/wipe or inside a write
                     let total = NEW_POINTS_WIPE + writes * WRITE_POINTS + 2;
@@ -347,7 +370,7 @@ pub fn gen_config(profile: Profile, run_seed: u64, index: u64) -> ACfg {
             let ninc = r.range(1, 3) as usize;
             for i in 0..ninc {
                 let writes = r.range(0, 3) as u32;
-                let mut inc = IncCfg { writes, kill_at: None, io_err: None, corrupt_before: Corrupt::None, gap_ns: r.range(0, 300), write_gap_ns: 0 };
+                let mut inc = IncCfg { writes, kill_at: None, io_err: None, corrupt_before: Corrupt::None, gap_ns: r.range(0, 300), write_gap_ns: 0, under_reader: false };
                 if i > 0 && r.chance(70) {
                     inc.corrupt_before = gen_corruption(&mut r, false);
                 }
@@ -367,6 +390,7 @@ pub fn gen_config(profile: Profile, run_seed: u64, index: u64) -> ACfg {
             }
         }
         Profile::Sweep => {
+            cfg.repeat_pct = 0;
             // 32 start values per run; index selects the chunk so that a tier covers all 65536
             let chunk = 32u64;
             let base = (index * chunk) % 65536;
@@ -376,23 +400,34 @@ pub fn gen_config(profile: Profile, run_seed: u64, index: u64) -> ACfg {
             cfg.weak = false;
             cfg.stale_ppm = 0;
             cfg.max_steps = 2_000_000;
-            let with_kill = (index * chunk) / 65536 % 2 == 1;
+            // three passes over the 65 536 start values: no fault; kill inside the write, then a new
+            // record; kill at the closing generation store (record fully copied), then the SAME record
+            let pass = (index * chunk) / 65536 % 3;
+            let with_kill = pass >= 1;
+            if pass == 2 {
+                cfg.repeat_pct = 100;
+            }
             for j in 0..chunk {
                 let g = (base + j) as u16;
-                let mut inc = IncCfg { writes: 1, kill_at: None, io_err: None, corrupt_before: Corrupt::SetValid { gen: g }, gap_ns: 0, write_gap_ns: 0 };
+                let mut inc = IncCfg { writes: 1, kill_at: None, io_err: None, corrupt_before: Corrupt::SetValid { gen: g }, gap_ns: 0, write_gap_ns: 0, under_reader: false };
                 if with_kill {
                     // kill inside the single write, then a second incarnation completes an update
-                    let at = if g == 0 { NEW_POINTS_WIPE } else { NEW_POINTS_VALID } + r.below(WRITE_POINTS as u64) as u32;
+                    let at = if g == 0 { NEW_POINTS_WIPE } else { NEW_POINTS_VALID } + if pass == 2 { WRITE_POINTS - 1 } else { r.below(WRITE_POINTS as u64) as u32 };
                     inc.kill_at = Some(at);
                     cfg.incs.push(inc);
-                    cfg.incs.push(IncCfg { writes: 1, kill_at: None, io_err: None, corrupt_before: Corrupt::None, gap_ns: 0, write_gap_ns: 0 });
+                    cfg.incs.push(IncCfg { writes: 1, kill_at: None, io_err: None, corrupt_before: Corrupt::None, gap_ns: 0, write_gap_ns: 0, under_reader: false });
                 } else {
                     cfg.incs.push(inc);
                 }
             }
         }
         Profile::Sleeper => {
-            let n = *[32766u32, 32767, 32768, 65534, 65535, 1, 2][..].get((index % 7) as usize).unwrap();
+            cfg.repeat_pct = 0;
+            // second half of the profile: the reader's first call races with a burst of three
+            // publications (its retry loop runs), then it sleeps through 32767 - k publications
+            let raced = (index / 7) % 2 == 1;
+            let burst = if raced { 3 } else { 1 };
+            let n = if raced { *[32764u32, 32765, 32766, 32767, 65532, 65533, 3][..].get((index % 7) as usize).unwrap() } else { *[32766u32, 32767, 32768, 65534, 65535, 1, 2][..].get((index % 7) as usize).unwrap() };
             cfg.switch_ppm = 300_000;
             cfg.pct_depth = 0;
             cfg.weak = false;
@@ -401,19 +436,22 @@ pub fn gen_config(profile: Profile, run_seed: u64, index: u64) -> ACfg {
             cfg.max_steps = 3_000_000;
             let g0 = gen_biased(&mut r) & !1;
             cfg.init = Corrupt::SetValid { gen: if g0 == 0 { 2 } else { g0 } };
-            cfg.incs.push(IncCfg { writes: 1 + n + 1, kill_at: None, io_err: None, corrupt_before: Corrupt::None, gap_ns: 0, write_gap_ns: 0 });
+            cfg.incs.push(IncCfg { writes: burst + n + 1, kill_at: None, io_err: None, corrupt_before: Corrupt::None, gap_ns: 0, write_gap_ns: 0, under_reader: false });
             cfg.readers.push(ReaderCfg {
-                // first call while the writer pauses after its first publication
-                start_ns: 2_000,
+                // first call while the writer pauses after its first publication (or, raced, while
+                // the initial burst is being published)
+                start_ns: if raced { r.range(60, 420) } else { 2_000 },
                 retry_ns: 50,
                 max_open_tries: 40,
                 calls: vec![CallCfg { gap_ns: 0, sync_before: false }, CallCfg { gap_ns: 0, sync_before: false }, CallCfg { gap_ns: 10_000, sync_before: false }],
                 sleep_pubs: n,
                 probe_apis: false,
                 reopen_each_call: false,
+                burst,
             });
         }
         Profile::Flood => {
+            cfg.repeat_pct = 0;
             cfg.weak = false;
             cfg.stale_ppm = 0;
             cfg.pct_depth = 0;
@@ -424,7 +462,7 @@ pub fn gen_config(profile: Profile, run_seed: u64, index: u64) -> ACfg {
             // the writer's quantum is not a multiple of its 12-step update, so the phase at which the
             // reader's calls begin drifts until one starts on an even generation
             cfg.pingpong = vec![*r.pick(&[13u32, 13, 17]), r.range(8, 10) as u32];
-            cfg.incs.push(IncCfg { writes: u32::MAX, kill_at: None, io_err: None, corrupt_before: Corrupt::None, gap_ns: 0, write_gap_ns: 0 });
+            cfg.incs.push(IncCfg { writes: u32::MAX, kill_at: None, io_err: None, corrupt_before: Corrupt::None, gap_ns: 0, write_gap_ns: 0, under_reader: false });
             let mut rd = gen_reader(&mut r, 2, false);
             rd.start_ns = 0;
             rd.retry_ns = 20;
@@ -432,18 +470,54 @@ pub fn gen_config(profile: Profile, run_seed: u64, index: u64) -> ACfg {
             cfg.readers.push(rd);
         }
         Profile::DeadWriter => {
+            cfg.repeat_pct = 0;
             cfg.weak = false;
             cfg.stale_ppm = 0;
             cfg.pct_depth = 0;
             cfg.switch_ppm = *r.pick(&[500_000u32, 400_000, 300_000]);
             cfg.max_steps = 130_000_000;
             cfg.init = Corrupt::SetValid { gen: gen_biased(&mut r) & !1 | 2 };
-            let w = r.range(1, 2) as u32;
-            // die right after the odd generation store of the last write
-            let at = NEW_POINTS_VALID + (w - 1) * WRITE_POINTS + 2 + r.below(3) as u32;
-            cfg.incs.push(IncCfg { writes: w, kill_at: Some(at), io_err: None, corrupt_before: Corrupt::None, gap_ns: 0, write_gap_ns: 0 });
+            let scripted = index % 2 == 1;
+            let mut w = r.range(1, 3) as u32;
+            if scripted && r.chance(50) {
+                // the writer's last complete update crosses the wrap of the generation counter
+                // and the one it dies in starts just after it
+                w = r.range(2, 3) as u32;
+                cfg.init = Corrupt::SetValid { gen: (65536 - 2 * (w - 1)) as u16 };
+            }
+            // die inside the last write: right after the odd generation store, or part-way through
+            // the record (so that a copy taken meanwhile is a blend)
+            let at = NEW_POINTS_VALID + (w - 1) * WRITE_POINTS + 2 + r.below(9) as u32;
+            cfg.incs.push(IncCfg { writes: w, kill_at: Some(at), io_err: None, corrupt_before: Corrupt::None, gap_ns: 0, write_gap_ns: 0, under_reader: false });
+            if index % 4 == 3 {
+                // a third party damages the header while the first client is between its first
+                // generation load and the re-check; the restarted daemon re-initialises the file
+                // under that client and dies before (or in) its first update
+                cfg.init = Corrupt::SetValid { gen: gen_biased(&mut r) & !1 | 2 };
+                let w = r.below(2) as u32;
+                cfg.incs[0] = IncCfg {
+                    writes: w,
+                    kill_at: if w == 0 || r.chance(30) { None } else { Some(NEW_POINTS_WIPE + r.below(WRITE_POINTS as u64 - 1) as u32) },
+                    io_err: None,
+                    corrupt_before: Corrupt::SetField { field: r.below(2) as u8, value: r.next() as u32 | 1 },
+                    gap_ns: 0,
+                    write_gap_ns: 0,
+                    under_reader: true,
+                };
+                cfg.preempts = vec![(1, false, LOC_GEN as u8, 2 + r.below(2) as u32, 0, 4000)];
+                cfg.switch_ppm = *r.pick(&[300_000u32, 50_000]);
+            } else if scripted {
+                // scripted: the first client loads the resting generation, then the writer runs all
+                // the way to its death (w-1 complete updates, possibly across the wrap), then the
+                // client resumes its copy and re-check
+                cfg.script = vec![(1, 1), (0, 3 + r.below(2) as u32), (1, 2 + r.below(3) as u32), (0, 1000)];
+                cfg.switch_ppm = *r.pick(&[300_000u32, 50_000]);
+            }
             for i in 0..2 {
-                let mut rd = gen_reader(&mut r, 2, false);
+                let mut rd = gen_reader(&mut r, 3, false);
+                if rd.calls.len() < 2 {
+                    rd.calls.push(CallCfg { gap_ns: 0, sync_before: false });
+                }
                 // the second client attaches after the writer's death (odd generation in the file)
                 rd.start_ns = if i == 0 { 0 } else { 20_000 };
                 rd.retry_ns = 20;
@@ -657,6 +731,8 @@ pub struct AState {
     wiped_this_inc: bool,
     /// the record bytes in the file stem from an injected corruption, not from a publication
     content_untrusted: bool,
+    /// a third party overwrote the file while a client had it mapped: only termination is judged
+    third_party: bool,
     max_loads_in_call: u64,
     sample_hist: Vec<Value>,
     /// no corruption in this run: the backing file keeps its inode, so one descriptor serves all reads
@@ -699,6 +775,7 @@ impl AState {
             readers_finished: 0,
             wiped_this_inc: false,
             content_untrusted: false,
+            third_party: false,
             max_loads_in_call: 0,
             sample_hist: Vec::new(),
             stable_file: false,
@@ -875,6 +952,14 @@ impl AState {
         self.out.probe("judged.snapshot_calls");
         if c.loads > MAX_ACCESSES_PER_CALL {
             self.out.violate(&["C18"], "unbounded_call", "loads>1e8".into(), format!("snapshot() performed {} shared accesses", c.loads));
+        }
+        if self.third_party {
+            self.out.probe("probe.call_over_file_overwritten_under_client_returned");
+            self.out.nontrivial.insert("C18");
+            let r = &mut self.readers[ri];
+            r.last_idx = -1;
+            r.last_gen = None;
+            return;
         }
         if let Some(g) = c.first_gen {
             let early = g == 0 || g & 1 == 1 || Some(g) == rs.last_gen;
@@ -1056,6 +1141,10 @@ impl Observer for AObserver {
             }
             EvKind::Sigbus => {
                 let valid = s.valid_at_new_entry;
+                if s.third_party {
+                    s.out.probe("probe.sigbus_after_third_party_overwrite");
+                    return;
+                }
                 s.out.violate(&["C04", "C16"], "sigbus", format!("valid_at_new_entry={valid}"), "an attached reader touched a page beyond the end of the backing file (the file was truncated under it): SIGBUS in production".into());
             }
             EvKind::Point if role == ROLE_WRITER => {
@@ -1087,7 +1176,14 @@ impl Observer for AObserver {
                             s.seg_published = false;
                         }
                         s.wiped_this_inc = true;
+                        // from here on the file is the daemon's own making: whatever a client can
+                        // attach to and read must be a published record again (C02/C04a), even if the
+                        // re-creation is interrupted
+                        s.content_untrusted = false;
                         s.out.probe("probe.wipe_of_unusable_file");
+                        if s.readers.iter().any(|r| r.call.active && r.call.gen_loads >= 1) {
+                            s.out.probe("probe.wipe_during_client_copy");
+                        }
                     }
                 } else if ev.tag == "new:mmap" {
                     s.out.probe("site.new:mmap");
@@ -1420,14 +1516,36 @@ fn reader_thread(ri: usize, cfg: ReaderCfg, path: PathBuf, st: Arc<Mutex<AState>
 
 fn writer_host(cfg: ACfg, path: PathBuf, st: Arc<Mutex<AState>>, wake_tx: Option<verif_rt::mpsc::Sender<()>>) {
     let mut next_k: i64 = 1;
+    let mut rep_rng = Rng::new(cfg.hash_seed ^ 0x5EED);
     let sleep_pubs = cfg.readers.first().map(|r| r.sleep_pubs).unwrap_or(0);
+    let burst = cfg.readers.first().map(|r| r.burst.max(1)).unwrap_or(1);
     let mut pubs_total = 0u32;
     for (i, inc) in cfg.incs.iter().enumerate() {
         if inc.corrupt_before != Corrupt::None {
             // external corruption is only applied while no client is attached (the properties
             // promise nothing to a client whose mapped file is overwritten by a third party)
-            while st.lock().unwrap().attached > 0 {
-                verif_rt::sleep_ns(40);
+            if inc.under_reader {
+                // a third party damages the file while the first client is copying the record
+                let mut polls = 0;
+                loop {
+                    {
+                        let mut s = st.lock().unwrap();
+                        let mid_call = s.readers.first().map(|r| r.call.active && r.call.gen_loads >= 1).unwrap_or(false);
+                        if mid_call || polls > 3000 {
+                            s.third_party = true;
+                            if mid_call {
+                                s.out.probe("probe.file_overwritten_during_client_copy");
+                            }
+                            break;
+                        }
+                    }
+                    polls += 1;
+                    verif_rt::sched_yield();
+                }
+            } else {
+                while st.lock().unwrap().attached > 0 {
+                    verif_rt::sleep_ns(40);
+                }
             }
             {
                 let mut s = st.lock().unwrap();
@@ -1470,8 +1588,14 @@ fn writer_host(cfg: ACfg, path: PathBuf, st: Arc<Mutex<AState>>, wake_tx: Option
                 if inc.writes == u32::MAX && st.lock().unwrap().readers_finished as usize >= cfg.readers.len() {
                     break;
                 }
-                let k = next_k;
-                next_k += 1;
+                let k = if next_k > 1 && rep_rng.chance(cfg.repeat_pct) {
+                    // same content as the last record handed to write() (possibly one whose update was
+                    // interrupted by a kill)
+                    next_k - 1
+                } else {
+                    next_k += 1;
+                    next_k - 1
+                };
                 st.lock().unwrap().write_begin(k);
                 verif_rt::mark("w:begin", k as u64, 0, 0);
                 w.write(&make_ceb(&rec_of(k)));
@@ -1503,14 +1627,14 @@ fn writer_host(cfg: ACfg, path: PathBuf, st: Arc<Mutex<AState>>, wake_tx: Option
                         s.out.violate(&["C16", "C17"], "recreated_size", format!("len={len}"), format!("re-created segment file is {len} bytes, documented layout is {P_TOTAL}"));
                     }
                 }
-                if sleep_pubs > 0 && pubs_total == 1 + sleep_pubs {
+                if sleep_pubs > 0 && pubs_total == burst + sleep_pubs {
                     if let Some(tx) = &wake_tx {
                         let _ = tx.send(());
                         // let the sleeper run before the trailing publication
                         verif_rt::sleep_ns(5_000);
                     }
                 }
-                if sleep_pubs > 0 && pubs_total == 1 {
+                if sleep_pubs > 0 && pubs_total == burst {
                     // give the reader time to take its first snapshot
                     verif_rt::sleep_ns(5_000);
                 }
@@ -1573,7 +1697,9 @@ pub fn run(cfg: &ACfg, run_seed: u64, replay: Option<Vec<u32>>, trace: bool, san
     let ecfg = verif_rt::Cfg {
         weak: cfg.weak,
         stale_ppm: cfg.stale_ppm,
-        sched: if !cfg.pingpong.is_empty() {
+        sched: if !cfg.script.is_empty() {
+            verif_rt::Sched::Script { turns: cfg.script.clone(), then_switch_ppm: cfg.switch_ppm.max(50_000) }
+        } else if !cfg.pingpong.is_empty() {
             verif_rt::Sched::PingPong { quanta: cfg.pingpong.clone() }
         } else if cfg.switch_ppm == 0 && cfg.pct_depth > 0 { verif_rt::Sched::Pct { depth: cfg.pct_depth, est_steps: 150 } } else { verif_rt::Sched::Random { switch_ppm: cfg.switch_ppm } },
         field_perm: cfg.field_perm,
@@ -1583,6 +1709,7 @@ pub fn run(cfg: &ACfg, run_seed: u64, replay: Option<Vec<u32>>, trace: bool, san
         hash_seed: cfg.hash_seed,
         sandbox: sandbox.to_path_buf(),
         trace,
+        preempts: cfg.preempts.iter().map(|p| verif_rt::Preempt { thread: p.0, store: p.1, loc: p.2, nth: p.3, run: p.4, steps: p.5 }).collect(),
         ..Default::default()
     };
     let mut procs = Vec::new();
